@@ -30,9 +30,14 @@ from harness.chanrt import err_coq, WNAMES   # noqa: E402
 def run(scn, seed, line_p=0.05, stick=0.5, decisions=None, rpc_timeout=2):
     import amqpstorm
     from pamqp import specification as spec
+    bcfg = {}
+    if scn.get('channel_max'):
+        bcfg['channel_max'] = scn['channel_max']
+    if scn.get('frame_max'):
+        bcfg['frame_max'] = scn['frame_max']
     rt, br, conn = cconn.new_connection(
         seed, rt_kw=dict(line_p=0.0, stick=stick, decisions=decisions), timeout=1,
-        broker_cfg=dict(channel_max=scn['channel_max']) if scn.get('channel_max') else None)
+        broker_cfg=bcfg or None)
     br.strict_close = True
     st = {'chans': {}}
     nack = []
@@ -74,6 +79,21 @@ def run(scn, seed, line_p=0.05, stick=0.5, decisions=None, rpc_timeout=2):
         raise RuntimeError('set-up failed: %r' % (t0.exc,))
     mark = len(br.ledger_in)
     rt.line_p = line_p
+    if scn.get('partial'):
+        import errno
+        import socket as real_socket
+        prnd = rt.rnd
+
+        def policy(sock, data):
+            r = prnd.random()
+            if r < 0.15:
+                raise real_socket.timeout('timed out')
+            if r < 0.3:
+                raise BlockingIOError(errno.EAGAIN, 'Resource temporarily unavailable')
+            if r < 0.8:
+                return prnd.randrange(1, max(2, min(len(data), 400)))
+            return prnd.randrange(1, len(data) + 1)
+        rt.send_policy = policy
     results = {}
 
     # broker events by number of client frames seen after the set-up
@@ -230,7 +250,7 @@ def wire_coq(ch, fr):
     elif name in ('Basic.Consume', 'Basic.Cancel'):
         s = fr.consumer_tag.encode('latin-1')
     elif name == 'ContentBody':
-        s = fr.value
+        num = len(fr.value)          # the length is all the predicates look at
     elif name == 'ContentHeader':
         num = fr.body_size
     return '{| wf_chan := %s; wf_name := %s; wf_str := %s; wf_num := %s |}' % (
